@@ -21,6 +21,8 @@ def sh(cmd, cwd=None, env=None, timeout=1800):
 
 
 def main():
+    import signal
+    signal.signal(signal.SIGTERM, lambda *a: sys.exit(143))      # let finally blocks revert /repo
     seed = os.path.abspath(sys.argv[1])
     checks = sys.argv[2:]
     patch = os.path.join(seed, "patch.diff")
@@ -59,7 +61,10 @@ def main():
         assert rc == 0, out
         try:
             for c in checks:
-                rc, out = sh("./check %s --tier quick" % c, cwd=VERIF, timeout=3000)
+                try:
+                    rc, out = sh("timeout 900 ./check %s --tier quick" % c, cwd=VERIF, timeout=1000)
+                except subprocess.TimeoutExpired:
+                    rc, out = 124, ""
                 viol = [l for l in out.splitlines() if l.startswith("VIOLATION")]
                 keys = [l.strip()[:300] for l in out.splitlines() if l.strip().startswith("key=")]
                 eng = [l[:300] for l in out.splitlines() if l.startswith("ENGINE")]
